@@ -3,8 +3,8 @@ Real text: circuit/src/tables/runner.rs CircuitRunner::{set_witness, witness_val
 set_public_inputs, set_private_inputs, execute_all, execute_alu_op}."""
 import re
 
-from vf.extract import extract_item
-from vf.unit import Unit
+from vf.extract import extract_item, match_brace
+from vf.unit import Unit, unget_or_insert
 
 PRELUDE = r'''
 #![allow(unused_imports, unused_variables, dead_code, unused_mut, unused_parens)]
@@ -346,8 +346,13 @@ def build():
                   '/* memoised closure `root` = WitnessId::resolve on `rewrite` (memo elided: pure function) */', min_count=1, flags_dotall=True)
     rn.rewrite('R6m', 'let r = root(*canon);', 'let r = canon.resolve(&rewrite);')
     rn.rewrite('R5', 'for (dup, canon) in &rewrite {', 'for (dup, canon) in it: rewrite.iter() {')
-    rn.rewrite('R1', 'if let Some(ref val) = self_.witness[r.0 as usize] { self_.set_witness(*dup, *val)?; }',
-               'if let Some(val) = self_.witness[r.0 as usize] { self_.set_witness(*dup, val)?; }')
+    m_ = re.search(r'if let Some\(ref (\w+)\) = ([^{]+?) \{', rn.body)
+    if m_:
+        # R1 (generic): `if let Some(ref V) = E { .. *V .. }` -> `if let Some(V) = E { .. V .. }` (V is Copy)
+        o_ = m_.end() - 1; c_ = match_brace(rn.body, o_)
+        rn.body = rn.body[:m_.start()] + f'if let Some({m_.group(1)}) = {m_.group(2)} {{' + re.sub(r'\*' + m_.group(1) + r'\b', m_.group(1), rn.body[o_ + 1:c_]) + rn.body[c_:]
+        rn.rewrites.append(('R1', '`if let Some(ref V) = E { .. *V .. }` -> by-value binding', ''))
+    unget_or_insert(rn)
     rn.rewrite('R5', 'for (i, value) in self_.witness.iter().enumerate() { witness_values.push((*value).ok_or(CircuitError::WitnessNotSetForIndex { index: i })?); }',
                'for i in 0..self_.witness.len() { let value = &self_.witness[i]; witness_values.push(match *value { Some(v_) => v_, None => { return Err(CircuitError::Other); } }); }')
     rn.requires('ops_well_formed', 'forall|k: int| 0 <= k < self.circuit.ops@.len() ==> wf_op(#[trigger] self.circuit.ops@[k]) && op_slots_in_range(self.circuit.ops@[k], self.witness@.len() as int)')
@@ -357,20 +362,7 @@ def build():
     rn.ensures('ok_means_rewritten_slots_equal_their_root', '''ret matches Ok(v) ==> ({ let rw = rwmap(self.witness_rewrite);
             forall|d: WitnessId| #![auto] rw.dom().contains(d) && (d.0 as int) < v@.len() ==> v@[d.0 as int] == v@[root(rw, rw[d]).0 as int] })''')
     rn.after('let alu_records = self_.execute_all()?;', 'let ghost w_exec = self_.witness@; let ghost rw0 = rwmap(self.witness_rewrite); proof { assert(self_.witness_rewrite == self.witness_rewrite); }')
-    rn.loop('for (dup, canon) in it: rewrite.iter()', invariants=[
-        ('mono', 'monotone(w_exec, self_.witness@) && self_.circuit == self.circuit && rewrite@ == rw0 && acyclic(rw0) && self_.witness@.len() == self.witness@.len()'),
-        ('range', 'forall|k: WitnessId| #![auto] rw0.dom().contains(k) ==> (root(rw0, rw0[k]).0 as int) < self.witness@.len()'),
-        ('pairs', 'forall|i: int| 0 <= i < it.seq().len() ==> rewrite@.contains_key(*(#[trigger] it.seq()[i]).0) && rewrite@[*it.seq()[i].0] == *it.seq()[i].1'),
-        ('all_keys', 'forall|k: WitnessId| rewrite@.contains_key(k) ==> exists|i: int| 0 <= i < it.seq().len() && *(#[trigger] it.seq()[i]).0 == k'),
-        ('done', '''forall|i: int| 0 <= i < it.index@ ==> ({ let d = *(#[trigger] it.seq()[i]).0; let r = root(rewrite@, rewrite@[d]);
-                    slot(self_.witness@, r).is_some() ==> slot(self_.witness@, d) == slot(self_.witness@, r) })'''),
-    ])
-    rn.before('let r = canon.resolve(&rewrite);', '''let ghost w_b = self_.witness@; let ghost k_ = it.index@ as int; proof {
-            assert(rewrite@.contains_key(*it.seq()[k_].0));
-            assert(rw0.dom().contains(*dup));
-            assert((root(rw0, rw0[*dup]).0 as int) < self.witness@.len());
-        }''')
-    rn.rewrite('SPEC-loop-tail', 'self_.set_witness(*dup, val)?; } }', '''self_.set_witness(*dup, val)?; }
+    rn.at_loop_end('for (dup, canon) in it: rewrite.iter()', '''
                 proof {
                     lemma_monotone_trans(w_exec, w_b, self_.witness@);
                     lemma_slots_mono(w_b, self_.witness@);
@@ -384,7 +376,20 @@ def build():
                         if d != *dup { assert(slot(self_.witness@, d) == slot(w_b, d)); }
                     }
                 }
-            }''')
+''')
+    rn.loop('for (dup, canon) in it: rewrite.iter()', invariants=[
+        ('mono', 'monotone(w_exec, self_.witness@) && self_.circuit == self.circuit && rewrite@ == rw0 && acyclic(rw0) && self_.witness@.len() == self.witness@.len()'),
+        ('range', 'forall|k: WitnessId| #![auto] rw0.dom().contains(k) ==> (root(rw0, rw0[k]).0 as int) < self.witness@.len()'),
+        ('pairs', 'forall|i: int| 0 <= i < it.seq().len() ==> rewrite@.contains_key(*(#[trigger] it.seq()[i]).0) && rewrite@[*it.seq()[i].0] == *it.seq()[i].1'),
+        ('all_keys', 'forall|k: WitnessId| rewrite@.contains_key(k) ==> exists|i: int| 0 <= i < it.seq().len() && *(#[trigger] it.seq()[i]).0 == k'),
+        ('done', '''forall|i: int| 0 <= i < it.index@ ==> ({ let d = *(#[trigger] it.seq()[i]).0; let r = root(rewrite@, rewrite@[d]);
+                    slot(self_.witness@, r).is_some() ==> slot(self_.witness@, d) == slot(self_.witness@, r) })'''),
+    ])
+    rn.before('let r = canon.resolve(&rewrite);', '''let ghost w_b = self_.witness@; let ghost k_ = it.index@ as int; proof {
+            assert(rewrite@.contains_key(*it.seq()[k_].0));
+            assert(rw0.dom().contains(*dup));
+            assert((root(rw0, rw0[*dup]).0 as int) < self.witness@.len());
+        }''')
     rn.before('let mut witness_values', '''let ghost w_fin = self_.witness@;
         proof {
             assert forall|d: WitnessId| #![auto] rw0.dom().contains(d) && slot(w_fin, root(rw0, rw0[d])).is_some() implies slot(w_fin, d) == slot(w_fin, root(rw0, rw0[d])) by {
